@@ -9,9 +9,65 @@ could have produced it: heights do not decrease from one event to the next (even
 batch satisfied `require(state_lastBatchNonces[token] < nonce)` and `require(block.number < timeout)`, a bridge-call result
 satisfied `require(!state_lastBridgeCallNonces[nonce])` and `require(block.number < timeout)` — the comparison operators
 are the ones read from `FxBridgeLogic.sol` on every run (`Gen/C05.lean`).
+
+Round 3: the ghost no longer hand-copies these rules.  The whole check-then-update statement list of `submitBatch` and
+`submitBridgeCall` (every `require`, the state update, the signature check, the first value-moving statement, in source
+order, `verifySubmitBridgeCall` inlined) is regenerated as `solSubmitBatch` / `solSubmitBridgeCall : List SolStmt`, and
+`admissible` / `Ext.next` INTERPRET it (`solRun`): an event is admissible when the interpreted submission does not revert,
+and the contract's `state_lastBatchNonces` / `state_lastBridgeCallNonces` move as the interpreted program moves them.  The
+order of the statements matters (an update placed before its `require` makes every submission revert).  `admissibleStd`
+/ `Ext.nextStd` are the hand-written closed forms the proofs work with; `Proofs/C05Sol.lean` proves the two coincide
+for the program as it is in the source now.  Not interpreted (assumed to hold; C12 covers signatures and checkpoints):
+token status, array lengths, the oracle-set checkpoint, the signature / power-threshold check.
 -/
 namespace FxVerif.Model.C05
 open FxVerif.Gen.C05
+
+/-- what the bridge contract sees when a submission arrives: `block.number`, the submitted timeout and nonce, its own
+`state_lastBatchNonces[token]` / `state_lastBridgeCallNonces[nonce]`; `moved`: value has left the contract -/
+structure SolSt where
+  blockNumber : Nat
+  timeout : Nat
+  lastNonce : Nat
+  nonce : Nat
+  nonceUsed : Bool
+  moved : Bool := false
+  deriving DecidableEq, Repr
+
+/-- quantities the ghost knows; signatures, powers and everything else are not interpreted -/
+def evalVar (st : SolSt) : SolVar → Option Nat
+  | .blockNumber => some st.blockNumber
+  | .timeout => some st.timeout
+  | .lastNonce => some st.lastNonce
+  | .nonce => some st.nonce
+  | .nonceUsed => some (if st.nonceUsed then 1 else 0)
+  | .power => none
+  | .threshold => none
+  | .other _ => none
+
+/-- one statement; `none` = the transaction reverts.  A `require` over quantities the ghost does not know is assumed to
+hold (environment: the relayer submits a well-formed, sufficiently signed transaction) -/
+def solStep (st : SolSt) : SolStmt → Option SolSt
+  | .require l op r =>
+    match evalVar st l, evalVar st r with
+    | some a, some b => if op.eval a b then some st else none
+    | _, _ => some st
+  | .requireNot v =>
+    match evalVar st v with
+    | some a => if a = 0 then some st else none
+    | none => some st
+  | .requireOther _ => some st
+  | .setLastNonce => some { st with lastNonce := st.nonce }
+  | .setNonceUsed => some { st with nonceUsed := true }
+  | .checkSignatures => some st
+  | .moveValue => some { st with moved := true }
+
+def solRun : List SolStmt → SolSt → Option SolSt
+  | [], st => some st
+  | x :: xs, st =>
+    match solStep st x with
+    | none => none
+    | some st' => solRun xs st'
 
 structure Ext where
   height : Nat := 0
@@ -23,14 +79,64 @@ structure Ext where
   sent : List Tx := []
   /-- every successful fee increase: (transfer id, added fee) -/
   raised : List (Nat × Nat) := []
+  /-- ids of the transfers created through the `crossChain` precompile (ghost log of successful `psend`) -/
+  sentEvm : List Nat := []
+  /-- nonces of the outgoing bridge calls created by `MsgBridgeCall` (ghost log of successful `bridgeCall`) -/
+  msgCalls : List Nat := []
 
-/-- how one operation on fxcore (creation) or one observed event (execution) moves the ghost -/
+/-- the batch submission the contract sees for an observed execution of batch `n` of token `t` at block `h` -/
+def batchSubmission (x : Ext) (h t n : Nat) : SolSt :=
+  ⟨h, ((x.created.find? (fun b => b.token = t ∧ b.nonce = n)).map (·.timeout)).getD 0, x.lastNonce t, n, false, false⟩
+
+/-- the bridge-call submission the contract sees for an observed result of bridge call `c` at block `h` -/
+def callSubmission (x : Ext) (h c : Nat) : SolSt :=
+  ⟨h, ((x.createdCalls.find? (fun cl => cl.nonce = c)).map (·.timeout)).getD 0, 0, c, decide (c ∈ x.callDone), false⟩
+
+/-- how one operation on fxcore (creation) or one observed event (execution) moves the ghost.  For an observed execution
+the contract's state moves as the INTERPRETED submit function moves it; an event whose submission would revert is outside
+the environment assumptions — the ghost then follows what fxcore was told -/
 def Ext.next (x : Ext) (s : State) (op : Op) : Ext :=
   match op with
   | .reqBatch _ _ _ _ => { x with created := x.created ++ (step s op).1.batches.drop s.batches.length }
-  | .bridgeCall _ _ _ _ _ _ => { x with createdCalls := x.createdCalls ++ (step s op).1.calls.drop s.calls.length }
+  | .bridgeCall _ _ _ _ _ _ =>
+    { x with createdCalls := x.createdCalls ++ (step s op).1.calls.drop s.calls.length,
+             msgCalls := x.msgCalls ++ ((step s op).1.calls.drop s.calls.length).map (·.nonce) }
+  | .pcall _ _ _ _ _ _ => { x with createdCalls := x.createdCalls ++ (step s op).1.calls.drop s.calls.length }
   | .send a d t am f =>
     if (step s op).1.nextTxId = s.nextTxId + 1 then { x with sent := x.sent ++ [⟨s.nextTxId, a, d, t, am, f⟩] } else x
+  | .psend a d t am f =>
+    if (step s op).1.nextTxId = s.nextTxId + 1 then
+      { x with sent := x.sent ++ [⟨s.nextTxId, a, d, t, am, f⟩], sentEvm := x.sentEvm ++ [s.nextTxId] } else x
+  | .incFee id _ _ add =>
+    match (step s op).2 with
+    | .ok _ => { x with raised := x.raised ++ [(id, add)] }
+    | _ => x
+  | .observe h (.batch t n) =>
+    let last' := match solRun solSubmitBatch (batchSubmission x h t n) with
+      | some st => st.lastNonce
+      | none => n
+    { x with height := h, lastNonce := fun t' => if t' = t then last' else x.lastNonce t' }
+  | .observe h (.result c _) =>
+    let used := match solRun solSubmitBridgeCall (callSubmission x h c) with
+      | some st => st.nonceUsed
+      | none => true
+    { x with height := h, callDone := if used then c :: x.callDone else x.callDone }
+  | .observe h .other => { x with height := h }
+  | _ => x
+
+/-- `Ext.next` in closed form (the proofs work with this one; `Proofs/C05Sol.lean`: the two are equal) -/
+def Ext.nextStd (x : Ext) (s : State) (op : Op) : Ext :=
+  match op with
+  | .reqBatch _ _ _ _ => { x with created := x.created ++ (step s op).1.batches.drop s.batches.length }
+  | .bridgeCall _ _ _ _ _ _ =>
+    { x with createdCalls := x.createdCalls ++ (step s op).1.calls.drop s.calls.length,
+             msgCalls := x.msgCalls ++ ((step s op).1.calls.drop s.calls.length).map (·.nonce) }
+  | .pcall _ _ _ _ _ _ => { x with createdCalls := x.createdCalls ++ (step s op).1.calls.drop s.calls.length }
+  | .send a d t am f =>
+    if (step s op).1.nextTxId = s.nextTxId + 1 then { x with sent := x.sent ++ [⟨s.nextTxId, a, d, t, am, f⟩] } else x
+  | .psend a d t am f =>
+    if (step s op).1.nextTxId = s.nextTxId + 1 then
+      { x with sent := x.sent ++ [⟨s.nextTxId, a, d, t, am, f⟩], sentEvm := x.sentEvm ++ [s.nextTxId] } else x
   | .incFee id _ _ add =>
     match (step s op).2 with
     | .ok _ => { x with raised := x.raised ++ [(id, add)] }
@@ -40,12 +146,13 @@ def Ext.next (x : Ext) (s : State) (op : Op) : Ext :=
   | .observe h .other => { x with height := h }
   | _ => x
 
-/-- the event is one the bridge contract can have produced -/
+/-- the event is one the bridge contract can have produced: heights do not decrease, fxcore created the record, and the
+INTERPRETED submit function does not revert for it -/
 def admissible (x : Ext) : Op → Prop
   | .observe h (.batch t n) => x.height ≤ h ∧ ∃ b ∈ x.created, b.token = t ∧ b.nonce = n ∧
-      solBatchNonceCmp.eval (x.lastNonce t) n = true ∧ solBatchTimeoutCmp.eval h b.timeout = true
+      (solRun solSubmitBatch ⟨h, b.timeout, x.lastNonce t, n, false, false⟩).isSome = true
   | .observe h (.result c _) => x.height ≤ h ∧ ∃ cl ∈ x.createdCalls, cl.nonce = c ∧
-      (solCallNonceOnce = true → c ∉ x.callDone) ∧ solCallTimeoutCmp.eval h cl.timeout = true
+      (solRun solSubmitBridgeCall ⟨h, cl.timeout, 0, c, decide (c ∈ x.callDone), false⟩).isSome = true
   | .observe h .other => x.height ≤ h
   | _ => True
 
@@ -54,12 +161,30 @@ def AdmissibleRun : State → Ext → List Op → Prop
   | _, _, [] => True
   | s, x, op :: ops => admissible x op ∧ AdmissibleRun (step s op).1 (x.next s op) ops
 
+/-- `admissible` in closed form: the comparison operators of the contract's rules, applied directly -/
+def admissibleStd (x : Ext) : Op → Prop
+  | .observe h (.batch t n) => x.height ≤ h ∧ ∃ b ∈ x.created, b.token = t ∧ b.nonce = n ∧
+      solBatchNonceCmp.eval (x.lastNonce t) n = true ∧ solBatchTimeoutCmp.eval h b.timeout = true
+  | .observe h (.result c _) => x.height ≤ h ∧ ∃ cl ∈ x.createdCalls, cl.nonce = c ∧
+      (solCallNonceOnce = true → c ∉ x.callDone) ∧ solCallTimeoutCmp.eval h cl.timeout = true
+  | .observe h .other => x.height ≤ h
+  | _ => True
+
+/-- every event of the run is admissible (user operations are unconstrained) -/
+def AdmissibleRunStd : State → Ext → List Op → Prop
+  | _, _, [] => True
+  | s, x, op :: ops => admissibleStd x op ∧ AdmissibleRunStd (step s op).1 (x.nextStd s op) ops
+
 /-- everything paid on top of the original fee of transfer `id` -/
 def raisedSum (r : List (Nat × Nat)) (id : Nat) : Nat := ((r.filter (fun p => p.1 = id)).map (·.2)).sum
 
 def runExt : State → Ext → List Op → State × Ext
   | s, x, [] => (s, x)
   | s, x, op :: ops => runExt (step s op).1 (x.next s op) ops
+
+def runExtStd : State → Ext → List Op → State × Ext
+  | s, x, [] => (s, x)
+  | s, x, op :: ops => runExtStd (step s op).1 (x.nextStd s op) ops
 
 end FxVerif.Model.C05
 
@@ -76,6 +201,8 @@ instance (x : Ext) : (op : Op) → Decidable (admissible x op)
   | .incFee .. => isTrue trivial
   | .reqBatch .. => isTrue trivial
   | .bridgeCall .. => isTrue trivial
+  | .psend .. => isTrue trivial
+  | .pcall .. => isTrue trivial
   | .exec .. => isTrue trivial
   | .setParams .. => isTrue trivial
   | .block .. => isTrue trivial
